@@ -58,6 +58,8 @@ pub fn c13(tier: &str, seed: u64) -> Vec<Case> {
     let thorough = tier == "thorough";
     let mut r = Rng::new(seed);
     let mut v = vec![];
+    // what the running responders put on the wire (beside everything below, which judges `build_reply` itself)
+    let live = std::thread::spawn(|| crate::props::svc::live_vec_with_baseline("responders answering", &crate::props::svc::live_responder_answers));
     // large answers: dozens of long records under one name - every one of them is in the reply, however large that makes it
     // (what can be sent is the sender's business, C14; what is *included* is this property's)
     for (count, len) in [(60usize, 200usize), (45, 250), (200, 40), (12, 255)] {
@@ -237,6 +239,7 @@ pub fn c13(tier: &str, seed: u64) -> Vec<Case> {
         }
         v.push(c);
     }
+    if let Ok(cases) = live.join() { v.extend(cases); }
     v
 }
 
@@ -436,6 +439,33 @@ pub fn c20(tier: &str, seed: u64) -> Vec<Case> {
         let mut ttls: Vec<u32> = (0..=7300).collect();
         for k in 0..400u32 { ttls.push(7300 + k * k * 37 + k); }
         for base in [65535u32, 86_400, 604_800, 1 << 24, (1 << 31) - 1, 1 << 31, u32::MAX - 9] { for d in 0..10 { ttls.push(base.saturating_add(d)); } }
+        // ... and the same read back from the store after the record went in through `add_cached_resource` and through the
+        // listener's ingestion (whatever happens to the TTL on the way in is part of the lifetime)
+        let host = mk_name(&[b"life".to_vec(), b"local".to_vec()]);
+        let svc_local = mk_name(&[b"local".to_vec()]);
+        let own_local = mk_name(&[b"own".to_vec(), b"local".to_vec()]);
+        for (k, t) in ttls.iter().enumerate() {
+            if k % 7 != 0 && *t > 130 && *t < 7000 { continue; }
+            let rr = ResourceRecord::new(host.clone(), CLASS::IN, *t, RData::A(A { address: 1 }));
+            let mut mgr: ResourceRecordManager<'static> = ResourceRecordManager::new();
+            let via = if k % 2 == 0 { mgr.add_cached_resource(rr.clone()); "add_cached_resource" } else {
+                let mut p = Packet::new_reply(0);
+                p.answers.push(rr.clone());
+                let wire = p.build_bytes_vec_compressed().unwrap();
+                let mut ch = None;
+                simple_mdns::verif::sync_add_response_to_resources(Packet::parse(&wire).unwrap(), &svc_local, &own_local, &mut mgr, &mut ch);
+                "the listener's ingestion"
+            };
+            let mut c = Case::oracle_only().tag("lifetime-in-store");
+            match simple_mdns::verif::cached_offsets(&mgr, &rr) {
+                None => { c = c.fail("cache-expiry", format!("a record with TTL {} stored through {} is not held as a cached record", t, via)); }
+                Some((refresh, expire)) => {
+                    if expire != *t as u64 { c = c.fail("cache-expiry", format!("a record received with TTL {} through {} is held for {} seconds", t, via, expire)); }
+                    else if refresh > expire { c = c.fail("refresh-time", format!("TTL {}: refresh due after {} s, later than the expiry", t, refresh)); }
+                }
+            }
+            v.push(c);
+        }
         for t in ttls {
             let (refresh, expire) = simple_mdns::verif::expiration_offsets(t);
             let mut c = Case::new(format!("mdns.exp {}", t), format!("{} {}", refresh, expire)).tag("lifetime");
